@@ -438,6 +438,8 @@ def run(tier):
     c14blk.part(rep, tier, validate)
     from . import c14defrag
     c14defrag.part(rep, tier)
+    from . import c14refuse
+    c14refuse.part(rep, tier)
     rep.notes["scenario_runs"] = len(jobs)
     rep.notes["socket_events_validated"] = sum(len(t) for t in traces)
     return rep.finish()
